@@ -805,12 +805,14 @@ output_init(const struct arg *operand, const struct stat *sbuf)
     ospec.fd = STDOUT_FILENO;
     ospec.sep = "";
     ospec.fmt = "stdout";
+    VERIF_EV("\"e\":\"OpOut\",\"regf\":0,\"blk\":%d", verif_sigblk());
     return 0;
 
   case OM_DISCARD:
     ospec.fd = -1;
     ospec.sep = "";
     ospec.fmt = "the bit bucket";
+    VERIF_EV("\"e\":\"OpOut\",\"regf\":0,\"blk\":%d", verif_sigblk());
     return 0;
 
   case OM_REGF:
@@ -853,6 +855,7 @@ output_init(const struct arg *operand, const struct stat *sbuf)
         opathn = tmp;
         ospec.sep = "\"";
         ospec.fmt = tmp;
+        VERIF_EV("\"e\":\"OpOut\",\"regf\":1,\"blk\":%d", verif_sigblk());
         return 0;
       }
     }
@@ -935,8 +938,6 @@ main(int argc, char **argv)
         VERIF_EV("\"e\":\"OpIn\",\"blk\":%d", verif_sigblk());
         cli();
         if (-1 != output_init(operands, &instat)) {
-          VERIF_EV("\"e\":\"OpOut\",\"regf\":%d,\"blk\":%d",
-                   (int)(OM_REGF == outmode), verif_sigblk());
           work();
           VERIF_EV("\"e\":\"Worked\",\"blk\":%d", verif_sigblk());
 
